@@ -57,7 +57,7 @@ theorem covered_scalar (last fst : Bool) (p n : Nat) (hp : isScalarPrefixC p = t
     subst this
     have := ((goodOp_scalar p n hp).any last)
     cases fst with
-    | true => simpa [joinInner] using this
+    | true => simpa [joinInner] using this.toFirst
     | false => simpa [joinInner] using this.notFirst
   · have hsp := showNat_ne_sp n
     simp only [processOperand, hsp, processRegister, expectOp, expectReg]
@@ -105,7 +105,7 @@ theorem covered_int (last fst : Bool) (i : IntA) : CoveredOp last fst (.int i) :
     subst this
     have := ((goodOp_int i).any last)
     cases fst with
-    | true => simpa [joinInner] using this
+    | true => simpa [joinInner] using this.toFirst
     | false => simpa [joinInner] using this.notFirst
   · simp [processOperand, processImmediate_int, expectOp]
 
